@@ -111,6 +111,15 @@ func replicaFamily(check string) bool {
 	return false
 }
 
+// selfConsistencyCheck: verdicts about the node's agreement with itself, which leave the model on track.
+func selfConsistencyCheck(check string) bool {
+	switch check {
+	case "stake.self", "stake.total", "stake.misfiled", "stake.totalquery", "stake.votingquery", "query.value", "query.unstable", "query.future":
+		return true
+	}
+	return false
+}
+
 func (w *World) violate(check string, props []string, h int64, f string, a ...interface{}) *Violation {
 	v := &Violation{Check: check, Props: props, Height: h, Detail: fmt.Sprintf(f, a...)}
 	if w.modelDiverged && !replicaFamily(check) {
@@ -558,11 +567,22 @@ func (w *World) RunBlock(h int64, step *BlockStep) {
 				w.Fatal = true
 			}
 		}
-		if w.Fatal || (len(w.Reps)+len(w.Forks) < 2 && w.Tr.Cfg.CrashEnum == 0 && w.Tr.Cfg.PCrash == 0) {
-			w.Fatal = true
-			return
+		// verdicts that compare the node with itself (its redundant totals against its own stake list, a
+		// query answer against its own committed state) say nothing about the model's track: the model keeps
+		// judging, so that the consequences of such a defect for other properties are seen as well
+		diverged := false
+		for _, v := range w.Viol {
+			if !selfConsistencyCheck(v.Check) {
+				diverged = true
+			}
 		}
-		w.modelDiverged = true
+		if diverged {
+			if w.Fatal || (len(w.Reps)+len(w.Forks) < 2 && w.Tr.Cfg.CrashEnum == 0 && w.Tr.Cfg.PCrash == 0) {
+				w.Fatal = true
+				return
+			}
+			w.modelDiverged = true
+		}
 	}
 	// faults at the block boundary
 	w.cur = nil
